@@ -94,24 +94,26 @@ theorem fresh_apply (s : State) (a : Act) (hi : Inv s) (hf : Fresh s) (hr : racy
     · exact ⟨by intro _ hp; simp [readH] at hp; subst hp; rfl, by intro _ _ hp; simp [readH] at hp,
         by intro _ _ hp; simp [readH] at hp⟩
     · rename_i hh hpc
-      have hhe := hf.haveH hh hpc
+      have hhe := hi.pcH hh hpc
       refine ⟨?_, ?_, ?_⟩
-      · intro h' hp; simp only [lockSection] at hp; split at hp <;> cases hp
+      · intro h' hp; simp only [lockSection] at hp; split at hp
+        · cases hp
+        · split at hp <;> cases hp
       · intro b pos hp
         simp only [lockSection] at hp
         split at hp
         · cases hp
         · rename_i b' hb
-          cases hp
-          -- b sits in slot pos(h+1), its index is ≡ h+1 and ≤ h+cap, hence ≤ h+1
-          have h1 := hi.slot _ _ hb
-          have h2 := hi.win _ _ hb
-          show b.idx ≤ s.height + 1
-          by_cases hlt : s.height + 1 < b.idx
-          · have := mod_eq_lt_add (c := s.cap) (a := b.idx) (b := s.height + 1) (by simpa [posOf, hhe] using h1) hlt
+          split at hp
+          · cases hp
+          · rename_i hle
+            cases hp
+            -- queue.go:117-119: an element above h+1 is not taken
+            show b.idx ≤ s.height + 1
             omega
-          · omega
-      · intro b pos hp; simp only [lockSection] at hp; split at hp <;> cases hp
+      · intro b pos hp; simp only [lockSection] at hp; split at hp
+        · cases hp
+        · split at hp <;> cases hp
     · rename_i b pos hpc
       have hb := hf.holding b pos hpc
       refine ⟨by intro _ hp; simp [addItem] at hp, by intro _ _ hp; simp [addItem] at hp, ?_⟩
@@ -122,6 +124,73 @@ theorem fresh_apply (s : State) (a : Act) (hi : Inv s) (hf : Fresh s) (hr : racy
       split <;> omega
     · exact ⟨by intro _ hp; simp [finish] at hp, by intro _ _ hp; simp [finish] at hp, by intro _ _ hp; simp [finish] at hp⟩
     · exact hf
+
+/-- What `Run` offers to the chain is never ahead of it — in EVERY reachable state (since the guard
+`b.GetIndex() > h+1 → continue`, queue.go:117-119): the part of `Fresh` that needs no calmness. -/
+structure Offer (s : State) : Prop where
+  holding : ∀ b pos, s.pc = .holding b pos → b.idx ≤ s.height + 1
+  added : ∀ b pos, s.pc = .added b pos → b.ok = true → b.idx ≤ s.height
+
+theorem offer_init (cap h0 : Nat) : Offer (init cap h0) :=
+  ⟨by intro _ _ hp; simp [init] at hp, by intro _ _ hp; simp [init] at hp⟩
+
+theorem offer_apply (s : State) (a : Act) (hi : Inv s) (hf : Offer s) : Offer (apply s a) := by
+  cases a with
+  | put e hr' =>
+    obtain ⟨h1, h2, _, _⟩ := put_frame s e (min hr' s.height)
+    refine ⟨?_, ?_⟩ <;> simp only [apply, h1, h2]
+    · exact hf.holding
+    · exact hf.added
+  | adv =>
+    refine ⟨?_, ?_⟩
+    · intro b pos hp; have := hf.holding b pos hp; simp only [apply, chainAdvance]; omega
+    · intro b pos hp hok; have := hf.added b pos hp hok; simp only [apply, chainAdvance]; omega
+  | disc =>
+    simp only [apply, discard]
+    split
+    · exact hf
+    · exact ⟨hf.holding, hf.added⟩
+  | run =>
+    simp only [apply, runStep]
+    split
+    · exact ⟨by intro _ _ hp; simp [start] at hp, by intro _ _ hp; simp [start] at hp⟩
+    · unfold wake
+      split
+      · exact ⟨by intro _ _ hp; simp at hp, by intro _ _ hp; simp at hp⟩
+      · split
+        · exact ⟨by intro _ _ hp; simp at hp, by intro _ _ hp; simp at hp⟩
+        · exact hf
+    · exact ⟨by intro _ _ hp; simp [readH] at hp, by intro _ _ hp; simp [readH] at hp⟩
+    · rename_i hh hpc
+      have hhe := hi.pcH hh hpc
+      refine ⟨?_, ?_⟩
+      · intro b pos hp
+        simp only [lockSection] at hp
+        split at hp
+        · cases hp
+        · split at hp
+          · cases hp
+          · cases hp
+            show b.idx ≤ s.height + 1
+            omega
+      · intro b pos hp; simp only [lockSection] at hp; split at hp
+        · cases hp
+        · split at hp <;> cases hp
+    · rename_i b pos hpc
+      have hb := hf.holding b pos hpc
+      refine ⟨by intro _ _ hp; simp [addItem] at hp, ?_⟩
+      intro b' pos' hp hok
+      simp only [addItem, Pc.added.injEq] at hp
+      obtain ⟨rfl, rfl⟩ := hp
+      simp only [addItem, accepts, hok, Bool.true_and, beq_iff_eq]
+      split <;> omega
+    · exact ⟨by intro _ _ hp; simp [finish] at hp, by intro _ _ hp; simp [finish] at hp⟩
+    · exact hf
+
+theorem offer_exec (s : State) (as : List Act) (hi : Inv s) (hf : Offer s) : Offer (exec s as) := by
+  induction as generalizing s with
+  | nil => exact hf
+  | cons a r ih => exact ih _ (inv_apply s a hi) (offer_apply s a hi hf)
 
 theorem fresh_init (cap h0 : Nat) : Fresh (init cap h0) :=
   ⟨by intro _ hp; simp [init] at hp, by intro _ _ hp; simp [init] at hp, by intro _ _ hp; simp [init] at hp⟩
@@ -234,5 +303,99 @@ theorem retained_exec (s : State) (as : List Act) (x : Elem) (hi : Inv s) (hf : 
   | cons a r ih =>
     exact ih _ (inv_apply s a hi) (fresh_apply s a hi hf hc.1) hc.2.2
       (retained_apply s a x hi hf hok hc.1 hc.2.1 h)
+
+/-- Retention for EVERY step but Discard, external additions at any moment included (needs only `Offer`). -/
+theorem retained_apply_all (s : State) (a : Act) (x : Elem) (hi : Inv s) (hf : Offer s) (hok : x.ok = true)
+    (hd : a ≠ .disc) (h : Retained s x) : Retained (apply s a) x := by
+  cases a with
+  | disc => exact absurd rfl hd
+  | put e hr' =>
+    obtain ⟨h1, h2, h3, _⟩ := put_frame s e (min hr' s.height)
+    simp only [apply, Retained, h1, h2, h3]
+    rcases h with h | h | h
+    · exact .inl h
+    · by_cases hl : x.idx ≤ s.height
+      · exact .inl hl
+      · exact .inr (.inl (put_keeps s hi e _ (Nat.min_le_right _ _) _ x h (by omega)))
+    · exact .inr (.inr h)
+  | adv =>
+    rcases h with h | h | h
+    · exact .inl (by simp only [apply, chainAdvance]; omega)
+    · exact .inr (.inl h)
+    · exact .inr (.inr h)
+  | run =>
+    simp only [apply, runStep]
+    split
+    · rename_i hpc
+      rcases h with h | h | ⟨_, h⟩
+      · exact .inl h
+      · exact .inr (.inl h)
+      · rw [hpc] at h; cases h
+    · rename_i hpc
+      have hw : (wake s).height = s.height ∧ (wake s).ring = s.ring ∧ (wake s).cap = s.cap := by
+        unfold wake; split
+        · exact ⟨rfl, rfl, rfl⟩
+        · split <;> exact ⟨rfl, rfl, rfl⟩
+      rcases h with h | h | ⟨_, h⟩
+      · exact .inl (by rw [hw.1]; exact h)
+      · exact .inr (.inl (by rw [hw.2.1, hw.2.2]; exact h))
+      · rw [hpc] at h; cases h
+    · rename_i hpc
+      rcases h with h | h | ⟨_, h⟩
+      · exact .inl h
+      · exact .inr (.inl h)
+      · rw [hpc] at h; cases h
+    · rename_i hh hpc
+      have hhe := hi.pcH hh hpc
+      rcases h with h | h | ⟨_, h⟩
+      · exact .inl h
+      · by_cases hl : x.idx ≤ s.height
+        · exact .inl hl
+        · refine .inr (.inl ?_)
+          show (cleanup s.cap (hh - s.lastHeight) s.lastHeight s.ring s.len).1 (posOf s.cap x.idx) = some x
+          by_cases hn : hh - s.lastHeight = 0
+          · rw [hn]; exact h
+          · exact cleanup_keeps _ _ _ _ _ _ _ h (by omega)
+      · rw [hpc] at h; cases h
+    · rename_i b pos hpc
+      have hle : s.height ≤ (addItem s b pos).height := by simp only [addItem]; split <;> omega
+      rcases h with h | h | ⟨pos', h⟩
+      · exact .inl (by omega)
+      · exact .inr (.inl h)
+      · rw [hpc] at h
+        simp only [Pc.holding.injEq] at h
+        obtain ⟨rfl, rfl⟩ := h
+        have hb := hf.holding b pos hpc
+        left
+        simp only [addItem, accepts, hok, Bool.true_and, beq_iff_eq]
+        split <;> omega
+    · rename_i b pos hpc
+      rcases h with h | h | ⟨_, h⟩
+      · exact .inl h
+      · by_cases hl : x.idx ≤ s.height
+        · exact .inl hl
+        · refine .inr (.inl ?_)
+          simp only [finish]
+          split
+          · rename_i hb
+            simp only [setSlot]
+            split
+            · rename_i hp
+              exfalso
+              rw [hp, hb] at h
+              cases h
+              exact hl (hf.added _ _ hpc hok)
+            · exact h
+          · exact h
+      · rw [hpc] at h; cases h
+    · exact h
+
+theorem retained_exec_all (s : State) (as : List Act) (x : Elem) (hi : Inv s) (hf : Offer s) (hok : x.ok = true)
+    (hnd : ∀ a ∈ as, a ≠ .disc) (h : Retained s x) : Retained (exec s as) x := by
+  induction as generalizing s with
+  | nil => exact h
+  | cons a r ih =>
+    exact ih _ (inv_apply s a hi) (offer_apply s a hi hf) (fun b hb => hnd b (by simp [hb]))
+      (retained_apply_all s a x hi hf hok (hnd a (by simp)) h)
 
 end NeoModel.Queue
